@@ -52,6 +52,7 @@ const IDS: [&str; 14] = [
     "vvvvvvvvvvvvvvvvvvvvvvvvvvvvvvvvvvvvvvvvvvvvvvvvvvvvvvvvvvvvvvvvvvvvvvvvvvv",
 ];
 const NC: u8 = 14;
+const ND: u8 = 5;
 const JOINERS: [&str; 3] = ["", "_", ":"];
 const SRCS: [&str; 3] = ["src", "src2", ""];
 
@@ -80,10 +81,14 @@ pub enum Op {
 #[derive(Clone, Debug, Serialize, Deserialize)]
 pub struct Case {
     pub ops: Vec<Op>,
+    /// entry-point sweep case (see sweep.rs); `ops` is ignored
+    #[serde(default)]
+    pub sweep: Option<crate::sweep::SweepCase>,
 }
 
 fn mref() -> impl Strategy<Value = MRef> {
-    (0u8..NC, 0u8..NC, 0u8..3, 0u8..3, 0u8..3).prop_map(|(chain, id, src, dest, ph)| MRef { chain, id, src, dest, ph })
+    // destinations 3, 4: the account-kind addresses carrying the same 32 bytes as destinations 1 and 0
+    (0u8..NC, 0u8..NC, 0u8..3, prop_oneof![9 => 0u8..3, 2 => 3u8..ND], 0u8..3).prop_map(|(chain, id, src, dest, ph)| MRef { chain, id, src, dest, ph })
 }
 
 fn op() -> impl Strategy<Value = Op> {
@@ -132,8 +137,10 @@ impl<'a> W<'a> {
 fn variants(m: &MRef) -> Vec<MRef> {
     vec![
         MRef { src: (m.src + 1) % 3, ..*m },
-        MRef { dest: (m.dest + 1) % 3, ..*m },
-        MRef { dest: (m.dest + 2) % 3, ..*m },
+        MRef { dest: (m.dest + 1) % ND, ..*m },
+        MRef { dest: (m.dest + 2) % ND, ..*m },
+        MRef { dest: (m.dest + 3) % ND, ..*m },
+        MRef { dest: (m.dest + 4) % ND, ..*m },
         MRef { ph: (m.ph + 1) % 3, ..*m },
     ]
 }
@@ -144,48 +151,39 @@ impl Property for C02 {
         "C02"
     }
     fn rule(&self) -> &'static str {
-        "proptest histories (<=30 quick / <=60 thorough ops) of batched approvals (with in-batch duplicates and re-use of known ids), consumption attempts (probe contract calling as itself, accounts with/without authorisation, exact replay of a stored message or with one field changed, a contract naming another address) and ledger advancement by 1-89 days (<= 250 days in total; statuses must not decay) over pools built to collide: 14 chains x 14 ids such that several pairs consist of the same characters split differently between chain and id (plain concatenation: a+bc = ab+c = abc+\"\"; with separators: x + y_z vs x_y + z, p + q:r vs p:q + r) two pairs of 70-character strings differing only in the last character, one pair of 150 characters split at two different positions, and strings differing only in letter case or a leading/trailing space; oracle = reference map (chain,id)->NotApproved/Approved(msg)/Executed moving only forward, event trace per op, sweep of is_message_executed over every known id and every id that collides with a known one and is_message_approved over stored messages and one-field variants after every op. non-trivial = history re-approves an executed id, or consumes with exactly one mismatching field after an approval, or has an in-batch duplicate id, or touches two ids whose chain||id concatenations coincide"
+        "proptest histories (<=30 quick / <=60 thorough ops) of batched approvals (with in-batch duplicates and re-use of known ids), consumption attempts (probe contract calling as itself, accounts with/without authorisation, destinations and callers that are the account-kind address carrying the same 32 bytes as a contract-kind destination, exact replay of a stored message or with one field changed, a contract naming another address) and ledger advancement by 1-89 days (<= 250 days in total; statuses must not decay) over pools built to collide: 14 chains x 14 ids such that several pairs consist of the same characters split differently between chain and id (plain concatenation: a+bc = ab+c = abc+\"\"; with separators: x + y_z vs x_y + z, p + q:r vs p:q + r) two pairs of 70-character strings differing only in the last character, one pair of 150 characters split at two different positions, and strings differing only in letter case or a leading/trailing space; oracle = reference map (chain,id)->NotApproved/Approved(msg)/Executed moving only forward, event trace per op, sweep of is_message_executed over every known id and every id that collides with a known one and is_message_approved over stored messages and one-field variants after every op. non-trivial = history re-approves an executed id, or consumes with exactly one mismatching field after an approval, or has an in-batch duplicate id, or touches two ids whose chain||id concatenations coincide. A share of the random cases is an entry-point sweep (construction as described for C13: the exported functions of all shipped contracts read from the sources of the tree under test, a complete deployed system, pooled arguments - including well-formed signer sets nobody installed and proofs properly signed by the gateway's own signer set over digests that belong to no command -, every require_auth satisfied by the host's mock and recorded; entry points absent from the pinned inventory get 300 deterministic cases each); oracle: one of eight messages the gateway holds approved becomes executed only if the destination it names is among the recorded signers or is the called contract; non-trivial = the call succeeded"
     }
     fn cases(&self, tier: Tier) -> u64 {
         tier.pick(3000, 40000)
     }
     fn strategy(&self, tier: Tier) -> BoxedStrategy<Case> {
-        proptest::collection::vec(op(), 1..tier.pick(30usize, 60usize)).prop_map(|ops| Case { ops }).boxed()
+        let direct: BoxedStrategy<Case> = {
+        proptest::collection::vec(op(), 1..tier.pick(30usize, 60usize)).prop_map(|ops| Case { ops, sweep: None }).boxed()
+        };
+        match crate::sweep::strategy(crate::sweep::Rule::Consume) {
+            Some(sw) => prop_oneof![9 => direct, 1 => sw.prop_map(|s| Case { ops: vec![], sweep: Some(s) })].boxed(),
+            None => direct,
+        }
     }
     fn fixed_cases(&self, _tier: Tier) -> Vec<Case> {
-        let m = MRef { chain: 1, id: 2, src: 0, dest: 0, ph: 0 };
-        vec![
-            // approve -> execute -> re-approve same and different content -> try to execute again
-            Case {
-                ops: vec![
-                    Op::Approve(vec![m]),
-                    Op::ValidateStored { slot: 6, change: 0, authorised: true },
-                    Op::Approve(vec![m]),
-                    Op::Approve(vec![MRef { ph: 1, ..m }]),
-                    Op::ValidateStored { slot: 6, change: 0, authorised: true },
-                    Op::Validate { caller: 0, m: MRef { ph: 1, ..m }, authorised: true },
-                ],
-            },
-            // "a"+"bc" vs "ab"+"c" vs "abc"+""
-            Case {
-                ops: vec![
-                    Op::Approve(vec![MRef { chain: 1, id: 2, src: 0, dest: 1, ph: 0 }]),
-                    Op::Validate { caller: 1, m: MRef { chain: 2, id: 1, src: 0, dest: 1, ph: 0 }, authorised: true },
-                    Op::Validate { caller: 1, m: MRef { chain: 3, id: 0, src: 0, dest: 1, ph: 0 }, authorised: true },
-                    Op::Validate { caller: 1, m: MRef { chain: 1, id: 2, src: 0, dest: 1, ph: 0 }, authorised: true },
-                ],
-            },
-        ]
+        let mut sweep_fixed: Vec<Case> = crate::sweep::fixed_cases(300).into_iter().map(|s| Case { ops: vec![], sweep: Some(s) }).collect();
+        sweep_fixed.extend(fixed_direct());
+        sweep_fixed
     }
 
     fn run(&self, case: &Case, cx: &mut Cx) -> Result<(), String> {
+        if let Some(sw) = &case.sweep {
+            return crate::sweep::run(sw, cx, crate::sweep::Rule::Consume);
+        }
         let env = new_env_longlived();
         let set = simple_set(1);
         let mut days_passed: u32 = 0;
         let gw = deploy_gateway(&env, [7; 32], 0, 0, &[set.clone()]).map_err(|e| format!("setup: {}", e))?;
         let probe_id = env.register(Caller, ());
         let probe = CallerClient::new(&env, &probe_id);
-        let dests = vec![probe_id.clone(), Address::generate(&env), Address::generate(&env)];
+        let mut dests = vec![probe_id.clone(), Address::generate(&env), Address::generate(&env)];
+        dests.push(kind_twin(&env, &dests[1]));
+        dests.push(kind_twin(&env, &dests[0]));
         let w = W { env: env.clone(), gw, set, dests, probe };
         let mut model: BTreeMap<(u8, u8), St> = BTreeMap::new();
         let mut touched_concat: std::collections::BTreeSet<(String, (u8, u8))> = Default::default();
@@ -262,7 +260,7 @@ impl Property for C02 {
                                 0..=3 => base,
                                 4 => MRef { src: (base.src + 1) % 3, ..base },
                                 5 => MRef { ph: (base.ph + 1) % 3, ..base },
-                                6 => MRef { dest: (base.dest + 1) % 3, ..base },
+                                6 => MRef { dest: (base.dest + 1 + slot % 4) % ND, ..base },
                                 _ => MRef { id: (base.id + 1) % NC, ..base },
                             };
                             if *change >= 4 && matches!(model.get(&key), Some(St::Approved(_))) {
@@ -300,7 +298,18 @@ impl Property for C02 {
                         let args = (who.clone(), x.source_chain.clone(), x.message_id.clone(), x.source_address.clone(), x.payload_hash.clone()).into_val(&env);
                         let invoke = MockAuthInvoke { contract: &w.gw.id, fn_name: "validate_message", args, sub_invokes: &[] };
                         let auths = [MockAuth { address: &who, invoke: &invoke }];
-                        let c = if authorised { w.gw.client.mock_auths(&auths) } else { w.gw.client.mock_auths(&[]) };
+                        if caller >= 3 {
+                            cx.label("caller_is_the_other_address_kind_with_the_same_bytes");
+                        }
+                        // (an account-kind address cannot be given a mock account contract: its authorisation is mocked wholesale)
+                        let c = if authorised && caller >= 3 {
+                            w.env.mock_all_auths();
+                            axelar_gateway::AxelarGatewayClient::new(&w.env, &w.gw.id)
+                        } else if authorised {
+                            w.gw.client.mock_auths(&auths)
+                        } else {
+                            w.gw.client.mock_auths(&[])
+                        };
                         match c.try_validate_message(&who, &x.source_chain, &x.message_id, &x.source_address, &x.payload_hash) {
                             Ok(Ok(b)) => Ok(b),
                             e => Err(format!("{:?}", e)),
@@ -396,4 +405,32 @@ impl Property for C02 {
         }
         Ok(())
     }
+}
+
+fn fixed_direct() -> Vec<Case> {
+        let m = MRef { chain: 1, id: 2, src: 0, dest: 0, ph: 0 };
+        vec![
+            // approve -> execute -> re-approve same and different content -> try to execute again
+            Case {
+                ops: vec![
+                    Op::Approve(vec![m]),
+                    Op::ValidateStored { slot: 6, change: 0, authorised: true },
+                    Op::Approve(vec![m]),
+                    Op::Approve(vec![MRef { ph: 1, ..m }]),
+                    Op::ValidateStored { slot: 6, change: 0, authorised: true },
+                    Op::Validate { caller: 0, m: MRef { ph: 1, ..m }, authorised: true },
+                ],
+                sweep: None,
+            },
+            // "a"+"bc" vs "ab"+"c" vs "abc"+""
+            Case {
+                ops: vec![
+                    Op::Approve(vec![MRef { chain: 1, id: 2, src: 0, dest: 1, ph: 0 }]),
+                    Op::Validate { caller: 1, m: MRef { chain: 2, id: 1, src: 0, dest: 1, ph: 0 }, authorised: true },
+                    Op::Validate { caller: 1, m: MRef { chain: 3, id: 0, src: 0, dest: 1, ph: 0 }, authorised: true },
+                    Op::Validate { caller: 1, m: MRef { chain: 1, id: 2, src: 0, dest: 1, ph: 0 }, authorised: true },
+                ],
+                sweep: None,
+            },
+        ]
 }
